@@ -103,7 +103,16 @@ def subclassify(spec, v, rng, p=0.7):
     if k == "fixed":
         return tuple(subclassify(c, e, rng, p) for c, e in zip(spec.kids, v))
     if k == "mapping":
-        d = {kk: subclassify(spec.kids[1], vv, rng, p) for kk, vv in v.items()}
+        ks = spec.kids[0].peel()
+        def key(kk):
+            # subclass instances as KEYS too (str subclass / IntEnum for int keys)
+            if ks.kind == "scalar" and rng.random() < p:
+                if ks.info["name"] == "str" and type(kk) is str:
+                    return MyStr(kk)
+                if ks.info["name"] == "int" and type(kk) is int and kk in (1, 7, -3):
+                    return MyInt(kk)
+            return kk
+        d = {key(kk): subclassify(spec.kids[1], vv, rng, p) for kk, vv in v.items()}
         if rng.random() < p:
             return rng.choice([collections.OrderedDict, MyMapping, lambda x: collections.defaultdict(list, x)])(d)
         return spec.info["cls"](d)
